@@ -185,6 +185,7 @@ func traceFields(o opts) error {
 			shape = append(shape, fmt.Sprintf("%s:%s:%s", d.fname, d.lean, t))
 		}
 		perr, aerr, namesOut, store := "-", "-", "-", (*setec.Store)(nil)
+		var listedOut []string
 		func() {
 			defer func() {
 				if p := recover(); p != nil {
@@ -193,7 +194,17 @@ func traceFields(o opts) error {
 			}()
 			cx := context.Background()
 			if via == "newstore" {
-				s, err := setec.NewStore(cx, setec.StoreConfig{Client: svc, Structs: []setec.Struct{{Value: arg, Prefix: prefix}}, PollInterval: -1, Logf: func(string, ...any) {}})
+				// the same name may also be listed (and listed twice): declared sets are de-duplicated across both routes
+				var listed []string
+				if fs0, e0 := setec.ParseFields(arg, prefix); e0 == nil && r.Intn(2) == 0 {
+					ns := fs0.Secrets()
+					listed = append(listed, ns[r.Intn(len(ns))])
+					if r.Intn(2) == 0 {
+						listed = append(listed, listed[0], join("k"))
+					}
+				}
+				listedOut = append([]string(nil), listed...)
+				s, err := setec.NewStore(cx, setec.StoreConfig{Client: svc, Secrets: listed, Structs: []setec.Struct{{Value: arg, Prefix: prefix}}, PollInterval: -1, Logf: func(string, ...any) {}})
 				if err != nil {
 					if strings.Contains(err.Error(), "parse struct fields") {
 						perr = classifyParse(err)
@@ -323,8 +334,8 @@ func traceFields(o opts) error {
 			svcNames = append(svcNames, hx(n)+"="+hb(v))
 		}
 		sort.Strings(svcNames)
-		emit("fields\tvia=%s\tprefix=%s\tshape=%s\tptr=%s\tsvc=%s\tperr=%s\tnames=%s\treqs=%s\taerr=%s\tvals=%s\tuntouched=%s\tstore_after=%s",
-			via, hx(prefix), strings.Join(shape, ";"), ptr, strings.Join(svcNames, ";"), perr, namesOut, xlistT(svc.reqs), aerr, strings.Join(vals, ";"), untouched, storeAfter)
+		emit("fields\tlisted=%s\tvia=%s\tprefix=%s\tshape=%s\tptr=%s\tsvc=%s\tperr=%s\tnames=%s\treqs=%s\taerr=%s\tvals=%s\tuntouched=%s\tstore_after=%s",
+			xlistT(listedOut), via, hx(prefix), strings.Join(shape, ";"), ptr, strings.Join(svcNames, ";"), perr, namesOut, xlistT(svc.reqs), aerr, strings.Join(vals, ";"), untouched, storeAfter)
 	}
 	return nil
 }
